@@ -68,6 +68,7 @@ CLASS_OF = [
     ('possible arithmetic underflow/overflow', 'overflow'),
     ('possible division by zero', 'div0'),
     ('possible bit shift underflow/overflow', 'shift'),
+    ('precondition not met: index in bounds', 'index'),
     ('precondition not satisfied', 'pre'),
     ('postcondition not satisfied', 'post'),
     ('post-condition of closure', 'post'),
